@@ -20,6 +20,7 @@ type goroutine struct {
 	waiting func() bool
 	what    string
 	started bool
+	visible bool // did something another goroutine could observe since its last scheduling point
 }
 
 type sudog struct {
@@ -166,12 +167,23 @@ func (m *Machine) yield(kind string) {
 		// replay sees exactly the same points
 		return
 	}
+	if kind == "point" && !m.Opt.NoPOR {
+		// Partial-order reduction. If the current goroutine has done nothing since its previous scheduling point that
+		// another goroutine could observe (only registers, non-escaping locals and pure vf calls), preempting it here
+		// is equivalent - same final state, same or lower delay cost - to preempting it at that previous point, which
+		// is explored separately; so no decision is offered here.
+		if !m.cur.visible {
+			return
+		}
+		m.cur.visible = false
+	}
 	m.pick(true, false)
 }
 
 // blockUntil parks the current goroutine until pred holds.
 func (m *Machine) blockUntil(what string, pred func() bool) {
 	g := m.cur
+	g.visible = true
 	g.waiting = pred
 	g.what = what
 	for !pred() {
@@ -573,6 +585,28 @@ func (m *Machine) sleep(d int64) {
 	t := &timer{when: m.now + d}
 	m.timers = append(m.timers, t)
 	m.blockUntil("sleep", func() bool { return t.fired })
+}
+
+// cancelTimer removes the pending timer feeding ch; reports whether one was pending.
+func (m *Machine) cancelTimer(ch *ChanObj) bool {
+	was := false
+	var rest []*timer
+	for _, t := range m.timers {
+		if t.ch == ch && ch != nil && !t.fired {
+			was = true
+			continue
+		}
+		rest = append(rest, t)
+	}
+	m.timers = rest
+	return was
+}
+
+// markVisible: the current goroutine did something another goroutine could observe (see yield).
+func (m *Machine) markVisible() {
+	if m.cur != nil {
+		m.cur.visible = true
+	}
 }
 
 func (m *Machine) after(d int64) *ChanObj {
